@@ -25,6 +25,14 @@ Lemma bind_eq {A B} (c : M A) (f : A -> M B) (w : world) :
   bind c f w = match c w with Ok a w' => f a w' | Panic w' => Panic w' | UB => UB end.
 Proof. reflexivity. Qed.
 
+Lemma on_unwind_eq {A} (cl : M unit) (c : M A) (w : world) :
+  on_unwind cl c w =
+  match c w with
+  | Panic w' => match cl w' with Ok _ w'' => Panic w'' | Panic w'' => Panic w'' | UB => UB end
+  | r => r
+  end.
+Proof. reflexivity. Qed.
+
 (* on a well-formed container the checked slicing of [scan] succeeds *)
 Lemma scan_WF (test : kv -> M bool) (w : world) :
   WF (self w) -> scan test w = scan_loop test (len (self w)) 0 w.
@@ -80,9 +88,10 @@ Proof.
   pose proof (insert_i_loop_scan k (len (self w)) 0 w Hw ltac:(lia)) as HL.
   rewrite (scan_WF _ w Hw) in Hd.
   unfold insert_i, insert_ii.
-  rewrite (bind_eq (scan (test_k E k))), (scan_WF _ w Hw).
+  rewrite (bind_eq (on_unwind _ (scan (test_k E k)))), (on_unwind_eq _ (scan (test_k E k))), (scan_WF _ w Hw).
   rewrite (bind_eq get_len). unfold get_len at 1. cbv beta iota.
-  rewrite (bind_eq (insert_i_loop E debug k (len (self w)) 0)).
+  rewrite (bind_eq (on_unwind _ (insert_i_loop E debug k (len (self w)) 0))),
+          (on_unwind_eq _ (insert_i_loop E debug k (len (self w)) 0)).
   destruct (scan_loop (test_k E k) (len (self w)) 0 w) as [[x|] w'|w'|] eqn:Hsc.
   - (* found at x *)
     destruct HL as (Hs & Hx & p & Hp & ->).
@@ -102,16 +111,16 @@ Proof.
     destruct (Nat.ltb_spec (len (self w)) (length (slots (self w)))) as [Hlt|Hge].
     + assert (Hltb : (len (self w) <? length (slots (self w))) = true) by (apply Nat.ltb_lt; exact Hlt).
       cbn [negb]. rewrite andb_false_r.
-      unfold p_write, p_write_checked, get_len, get_cap, dbg_assert, set_len, set_slot, bind, ret, panic, cap.
+      unfold on_unwind, check_index, p_write, p_write_checked, get_len, get_cap, dbg_assert, set_len, set_slot, bind, ret, panic, cap.
       repeat (cbv beta iota; simp_w; rewrite ?Hs, ?Hltb, ?Nat.eqb_refl; cbn [negb]; rewrite ?andb_false_r).
       destruct u; reflexivity.
     + destruct Hroom as [Hlt|Hdb]; [lia|]. rewrite Hdb. cbn [negb andb].
-      unfold get_len, get_cap, dbg_assert, bind, ret, panic, cap.
+      unfold on_unwind, check_index, get_len, get_cap, dbg_assert, bind, ret, panic, cap.
       assert (Hltb : (len (self w) <? length (slots (self w))) = false) by (apply Nat.ltb_ge; exact Hge).
       repeat (cbv beta iota; simp_w; rewrite ?Hs, ?Hltb, ?Hdb; cbn [negb andb]).
-      reflexivity.
+      destruct (unwind_pair E (k, v) w'); reflexivity.
   - (* a comparison panicked *)
-    rewrite HL. reflexivity.
+    rewrite HL. destruct (unwind_pair E (k, v) w'); reflexivity.
   - destruct HL.
 Qed.
 
